@@ -84,6 +84,15 @@ type vCase struct {
 	Full    json.RawMessage `json:"full"`
 	Steps   []vStep         `json:"steps"`
 	Cut     int             `json:"cut"` // act: >=0 -> additionally interrupt the real call before write #cut+1 by panic
+
+	// kind pipe: run the boot pipeline (firmware table + REAL initramfs code) from disk state D/Pres
+	D         *vDisk `json:"d"`
+	Pres      *vPres `json:"pres"`
+	Start     string `json:"start"` // fw (after a power loss) | ins | ibase
+	Cmdtrying bool   `json:"cmdtrying"`
+	Rk        int    `json:"rk"`
+	Goodk     []int  `json:"goodk"`
+	Goodb     []int  `json:"goodb"`
 }
 
 // ---------------------------------------------------------------- device
@@ -637,6 +646,99 @@ func (w *world) fw(b vBoot, p vPres) vBoot {
 	}
 }
 
+
+// ---------------------------------------------------------------- statement oracle: what does the device do from here?
+
+type pBoot struct {
+	Res string `json:"res"` // ok | halt | reboot | fwfallback
+	Rk  int    `json:"rk"`
+	Mk  int    `json:"mk"`
+	Rb  int    `json:"rb"`
+	Msg string `json:"msg"`
+}
+
+func hasInt(l []int, r int) bool {
+	for _, x := range l {
+		if x == r {
+			return true
+		}
+	}
+	return false
+}
+
+// pipeline boots the device from the current real state: firmware step per the spec's table, initramfs by the
+// REAL code. failTrial: a boot that involves a revision outside goodk/goodb fails (reboot) - the worst case for a
+// trial. Returns the sequence of boot attempts and how it ended: ok | halt | loop.
+func (w *world) pipeline(start string, cmdtrying bool, rk int, failTrial bool, goodk, goodb []int) (boots []pBoot, end string) {
+	b := vBoot{Phase: start, Cmdtrying: cmdtrying, Rk: rk}
+	for n := 0; n < 8; n++ {
+		if b.Phase == "fw" {
+			nb := w.fw(b, w.present())
+			if nb.Phase == "halt" {
+				boots = append(boots, pBoot{Res: "halt", Msg: "firmware: " + nb.Why})
+				return boots, "halt"
+			}
+			if nb.Phase == "fw" {
+				boots = append(boots, pBoot{Res: "fwfallback"})
+				b = nb
+				continue
+			}
+			b = nb
+		}
+		var ok pBoot
+		if b.Phase == "result" { // UC16: no initramfs logic in this repository
+			ok = pBoot{Res: "ok", Rk: b.Rk, Mk: b.Mk, Rb: b.Rb}
+		} else {
+			w.setCmdline(b.Cmdtrying)
+			if b.Phase == "ins" {
+				if err := w.initNs(); err != nil {
+					boots = append(boots, pBoot{Res: "halt", Rk: b.Rk, Msg: err.Error()})
+					return boots, "halt"
+				}
+			}
+			m, err := boot.ReadModeenv(w.root)
+			if err != nil {
+				boots = append(boots, pBoot{Res: "halt", Rk: b.Rk, Msg: err.Error()})
+				return boots, "halt"
+			}
+			rb := w.initSelect(snap.TypeBase, m)
+			if rb.Res != "ok" {
+				boots = append(boots, pBoot{Res: "halt", Rk: b.Rk, Msg: rb.Msg})
+				return boots, "halt"
+			}
+			rk := w.initSelect(snap.TypeKernel, m)
+			if rk.Res == "halt" {
+				boots = append(boots, pBoot{Res: "halt", Rk: b.Rk, Rb: rb.Rev, Msg: rk.Msg})
+				return boots, "halt"
+			}
+			if rk.Res == "reboot" {
+				boots = append(boots, pBoot{Res: "reboot", Rk: b.Rk, Rb: rb.Rev})
+				b = vBoot{Phase: "fw"}
+				continue
+			}
+			ok = pBoot{Res: "ok", Rk: b.Rk, Mk: rk.Rev, Rb: rb.Rev}
+		}
+		if failTrial && (!hasInt(goodk, ok.Rk) || !hasInt(goodb, ok.Rb)) {
+			ok.Res = "bootfail"
+			boots = append(boots, ok)
+			b = vBoot{Phase: "fw"}
+			continue
+		}
+		boots = append(boots, ok)
+		return boots, "ok"
+	}
+	return boots, "loop"
+}
+
+func runPipeCase(w *world, c vCase, out *outw) {
+	for pass := 1; pass <= 2; pass++ {
+		w.materialise(*c.D, *c.Pres)
+		boots, end := w.pipeline(c.Start, c.Cmdtrying, c.Rk, pass == 2, c.Goodk, c.Goodb)
+		out.put(map[string]interface{}{"ev": "Pipe", "case": c.ID, "pass": pass, "boots": boots, "end": end,
+			"final": normCk(w.project())})
+	}
+}
+
 // ---------------------------------------------------------------- case runners
 
 type outw struct {
@@ -673,12 +775,12 @@ func runActCase(w *world, c vCase, full vFull, out *outw) {
 	}
 	out.put(map[string]interface{}{"ev": "InUse", "case": c.ID, "k": ik, "b": ib})
 	err, _ := w.runAction(full.Act.Name, full.Act.Arg, -1)
+	for _, e := range w.events {
+		out.put(map[string]interface{}{"ev": "W", "case": c.ID, "op": e.Op, "st": normCk(e.St)})
+	}
 	if err != nil {
 		out.put(map[string]interface{}{"ev": "Err", "case": c.ID, "msg": err.Error()})
 		return
-	}
-	for _, e := range w.events {
-		out.put(map[string]interface{}{"ev": "W", "case": c.ID, "op": e.Op, "st": normCk(e.St)})
 	}
 	out.put(map[string]interface{}{"ev": "End", "case": c.ID, "st": normCk(w.project())})
 
@@ -942,6 +1044,8 @@ func TestVerifBootTry(t *testing.T) {
 			}
 		case "beh":
 			runBehCase(w, c, out)
+		case "pipe":
+			runPipeCase(w, c, out)
 		default:
 			t.Fatalf("unknown case kind %q", c.Kind)
 		}
